@@ -92,3 +92,54 @@ Proof.
   destruct (f_hs b <? f_he b); cbn [negb]; [|reflexivity].
   cbv zeta. first [reflexivity | f_equal; lia].
 Qed.
+
+(* _remove_overlapping as a WHOLE (k_remove_overlapping: `non_overlapping = [results[0]]`, the loop over results[1:] with
+   non_overlapping[-1] read, replaced or appended to): the model's [ro] carries the last kept hit separately; any step
+   function that treats the accumulated list this way folds to [ro] *)
+Lemma fold_is_ro (f : list hit -> hit -> list hit) L :
+  (forall pre prev r, f (pre ++ [prev]) r =
+     if ovl L r prev then (if sc prev <? sc r then pre ++ [r] else pre ++ [prev]) else (pre ++ [prev]) ++ [r]) ->
+  forall rs pre prev, fold_left f rs (pre ++ [prev]) = pre ++ ro L prev rs.
+Proof.
+  intros Hf. induction rs as [|r rs IH]; intros pre prev; cbn [fold_left ro]; [reflexivity|].
+  rewrite Hf. destruct (ovl L r prev).
+  - destruct (sc prev <? sc r); apply IH.
+  - rewrite IH. rewrite <- app_assoc. reflexivity.
+Qed.
+
+Lemma tie_remove_overlapping L r0 rs : k_remove_overlapping (r0 :: rs) L = ro L r0 rs.
+Proof.
+  unfold k_remove_overlapping. cbn [hd tl]. cbv zeta.
+  change [r0] with ([] ++ [r0]) at 1.
+  rewrite (fold_is_ro _ L); [reflexivity|].
+  intros pre prev r. cbv beta. rewrite last_last, removelast_last.
+  match goal with |- (if ?t then _ else _) = _ => assert (H : t = ovl L r prev) by (unfold ovl; lia); rewrite H end.
+  destruct (ovl L r prev); [|reflexivity]. destruct (sc prev <? sc r); reflexivity.
+Qed.
+
+(* _merge_immediate_neigbours as a WHOLE (k_merge_immediate_neighbours: `result = [domains[0]]`, the loop over
+   domains[1:] with `continue`, result[-1] read, merged into, or appended to) *)
+Lemma fold_is_mn (f : list hit -> hit -> list hit) L :
+  (forall pre cur d, f (pre ++ [cur]) d =
+     if negb (prof d =? prof cur) then (pre ++ [cur]) ++ [d]
+     else if 2 * (en d - st cur) <? 3 * L (prof d) then pre ++ [merge cur d]
+     else (pre ++ [cur]) ++ [d]) ->
+  forall ds pre cur, fold_left f ds (pre ++ [cur]) = pre ++ mn L cur ds.
+Proof.
+  intros Hf. induction ds as [|d ds IH]; intros pre cur; cbn [fold_left mn]; [reflexivity|].
+  rewrite Hf. destruct (negb (prof d =? prof cur)).
+  - rewrite IH, <- app_assoc. reflexivity.
+  - destruct (2 * (en d - st cur) <? 3 * L (prof d)); [apply IH|]. rewrite IH, <- app_assoc. reflexivity.
+Qed.
+
+Lemma tie_merge_immediate_neighbours L d0 ds : k_merge_immediate_neighbours (d0 :: ds) L = mn L d0 ds.
+Proof.
+  unfold k_merge_immediate_neighbours. cbn [hd tl]. cbv zeta.
+  change [d0] with ([] ++ [d0]) at 1.
+  rewrite (fold_is_mn _ L); [reflexivity|].
+  intros pre cur d. cbv beta. rewrite !last_last, removelast_last, <- (tie_merge cur d).
+  destruct (negb (prof d =? prof cur)); [reflexivity|].
+  match goal with |- (if ?t then _ else _) = _ =>
+    assert (H : t = (2 * (en d - st cur) <? 3 * L (prof d))) by lia; rewrite H end.
+  reflexivity.
+Qed.
